@@ -544,7 +544,12 @@ PROPS = {
         run=run_c24,
         harness_keys=["default"],
         level="proof",
+        technique="Lean 4 invariant + refinement-to-successor proof over all histories (complete decide tables for the 8x3 bit-level domain) + exhaustive/differential correspondence with the real advertiser classes",
+        level_text="inv_reachable + timeout_channel_successor: in every reachable state of every configuration the PDU scheduled by handle_adv_timeout goes to the cyclic successor among the enabled channels, delay 0 inside an event and interval + 0..10 ms between events; cycle_visits_enabled_ascending_once: that successor visits each enabled channel exactly once in ascending order; count_bounds_pdus / startn_budget / stop_silences: start/stop/count bound the PDUs. Model = code with fix adv-01.",
+        level_note="Known finding (start_on_lowest_witness): a restart resumes on the channel of the last PDU. Map changes while advertising are documented as unsupported and are compared model<->code only.",
         design_ref="§5 C24",
+        assumptions=["the link layer calls handle_adv_timeout / handle_adv_receive only for a scheduled advertisement",
+                     "channel map not empty when advertising (documented requirement)"],
     ),
     "C25": dict(
         theorems=["BluetoeModel.Adv.connect_accepted_iff", "BluetoeModel.Adv.validConnectBase_iff",
@@ -555,6 +560,9 @@ PROPS = {
         run=run_c25,
         harness_keys=["default"],
         level="partial",
+        technique="Lean 4 exact characterisation (iff) of handle_adv_receive for all PDUs/states + differential correspondence on the real advertiser + white list; scan half modelled only",
+        level_text="connect_accepted_iff: a connection is entered iff the PDU is a 2+34 octet CONNECT_IND with AdvA/RxAdd = own address/type, the advertising type is connectable (directed: InitA/TxAdd = target, target set) and the initiator passes the connection filter.",
+        level_note="partial: the scan request half lives in the radio (nRF52 ISR, modelled only: nrf_scan_filter_witness shows the wrong address type in the scan filter lookup); advertising.hpp's own is_valid_scan_request does not compile when instantiated; the real link_layer<> on test_radio was not driven.",
         design_ref="§5 C25",
         assumptions=["connect half: handle_adv_receive of advertising.hpp + white_list<4> driven through a mock link layer (the real "
                      "link_layer<> calls exactly this function in adv_received)",
